@@ -352,7 +352,7 @@ CHECKS["C05"] = {
 def _c20(cases, **kw):
     out = []
     for (k, ops, eps, lens) in cases:
-        g = {"harness": "VerifC20Cache", "params": {"k": k, "ops": ops, "eps": eps, "lens": lens, "typ": [0, 1, 2], "mix": 0, "two": 0}, "prune": 1000, "timeout_ms": 300000}
+        g = {"harness": "VerifC20Cache", "params": {"k": k, "ops": ops, "eps": eps, "lens": lens, "typ": [0, 1, 2], "mix": 0, "two": 0, "bnfail": 0}, "prune": 1000, "timeout_ms": 300000}
         if ops != 0:
             # sequences with an invalidation / trim: every request asks all three duty types (cross-type interference)
             g["params"]["typ"] = 0
@@ -367,7 +367,9 @@ CHECKS["C20"] = {
     # (k, ops base-3 [0 request,1 reorg-invalidate,2 trim], eps bitmask [request i asks the later epoch], lens base-4 [number of indices of request i; 0 = all active])
     "quick": _c20([(2, 0, 0, 5), (2, 0, 0, 9), (2, 0, 0, 6), (2, 0, 0, 4), (2, 0, 0, 1), (2, 0, 2, 5), (3, 3, 5, 17), (3, 6, 0, 17)])
              # request, reorg, request, a second reorg back to the same epoch, request (later epoch, one index each; one duty type per case)
-             + [{"harness": "VerifC20Cache", "params": {"k": 5, "ops": 30, "eps": 21, "lens": 273, "typ": [0, 1, 2], "mix": 0, "two": 0}, "prune": 1000, "timeout_ms": 300000}],
+             + [{"harness": "VerifC20Cache", "params": {"k": 5, "ops": 30, "eps": 21, "lens": 273, "typ": [0, 1, 2], "mix": 0, "two": 0, "bnfail": 0}, "prune": 1000, "timeout_ms": 300000},
+                # the epoch is cached for one validator; a request for two validators then needs the beacon node, which fails
+                {"harness": "VerifC20Cache", "params": {"k": 2, "ops": 0, "eps": 0, "lens": 9, "typ": [0, 1, 2], "mix": 0, "two": 0, "bnfail": 2}, "prune": 1000, "timeout_ms": 300000}],
     "thorough": _c20([(2, 0, e, l) for e in (0, 1, 2, 3) for l in (0, 1, 2, 4, 5, 6, 8, 9, 10, 12, 13, 14)]
                      + [(3, 0, 0, l) for l in (21, 25, 37, 22, 41, 26)] + [(3, 3, e, 17) for e in (0, 1, 4, 5)] + [(3, 6, e, 17) for e in (0, 5)]
                      + [(3, 1, 6, 20), (3, 2, 6, 20), (4, 3 + 0 * 27, 13, 1 + 16 + 64)], case_timeout_s=6000),
@@ -390,14 +392,14 @@ CHECKS["C20"]["quick"] = CHECKS["C20"]["quick"] + [
     # the other thread invalidates (reorg) or trims the epoch while the first one's beacon call is in flight
     {"harness": "VerifC20Intf", "params": {"intfkind": [1, 2], "typ": 1, "npre": 1, "na": 2, "nb": 0, "nc": 1, "intf_line": lock_lines(_C20_CACHE, r"storeOrAmendAttesterDuties")}, "prune": 1000, "timeout_ms": 120000, "case_timeout_s": 3000},
     # a validator with two proposer duties in the epoch
-    {"harness": "VerifC20Cache", "params": {"k": 2, "ops": 0, "eps": 0, "lens": [6, 10], "typ": 0, "mix": 0, "two": 1}, "prune": 1000, "timeout_ms": 300000},
+    {"harness": "VerifC20Cache", "params": {"k": 2, "ops": 0, "eps": 0, "lens": [6, 10], "typ": 0, "mix": 0, "two": 1, "bnfail": 0}, "prune": 1000, "timeout_ms": 300000},
 ]
 CHECKS["C20"]["thorough"] = CHECKS["C20"]["thorough"] + [
     {"harness": "VerifC20Intf", "params": {"intfkind": 0, "typ": 1, "npre": [0, 1], "na": [1, 2], "nb": 2, "nc": [1, 2], "intf_line": lock_lines(_C20_CACHE, r"storeOrAmendAttesterDuties|fetchAttesterDuties")}, "prune": 1000, "timeout_ms": 300000, "case_timeout_s": 6000},
     {"harness": "VerifC20Intf", "params": {"intfkind": [0, 1], "typ": 0, "npre": 1, "na": 2, "nb": 2, "nc": 1, "intf_line": lock_lines(_C20_CACHE, r"storeOrAmendProposerDuties|fetchProposerDuties")}, "prune": 1000, "timeout_ms": 300000, "case_timeout_s": 6000},
-    {"harness": "VerifC20Cache", "params": {"k": 2, "ops": 0, "eps": [0, 1], "lens": [5, 6, 9, 10], "typ": 0, "mix": 0, "two": 1}, "prune": 1000, "timeout_ms": 300000},
+    {"harness": "VerifC20Cache", "params": {"k": 2, "ops": 0, "eps": [0, 1], "lens": [5, 6, 9, 10], "typ": 0, "mix": 0, "two": 1, "bnfail": 0}, "prune": 1000, "timeout_ms": 300000},
     # a validator with two proposals that is ADDED to a cached epoch by a second, larger request; a third request is then served from the cache
-    {"harness": "VerifC20Cache", "params": {"k": 3, "ops": 0, "eps": 0, "lens": [41, 37], "typ": 0, "mix": 0, "two": 1}, "prune": 1000, "timeout_ms": 300000, "case_timeout_s": 6000},
+    {"harness": "VerifC20Cache", "params": {"k": 3, "ops": 0, "eps": 0, "lens": [41, 37], "typ": 0, "mix": 0, "two": 1, "bnfail": 0}, "prune": 1000, "timeout_ms": 300000, "case_timeout_s": 6000},
     {"harness": "VerifC20Intf", "params": {"intfkind": [1, 2], "typ": [0, 1, 2], "npre": 1, "na": 2, "nb": 0, "nc": [1, 2], "intf_line": lock_lines(_C20_CACHE, r"storeOrAmend(Attester|Proposer|Sync)Duties")}, "prune": 1000, "timeout_ms": 300000, "case_timeout_s": 6000},
     {"harness": "VerifC20Intf", "params": {"intfkind": [0, 2], "typ": 2, "npre": 1, "na": 2, "nb": 2, "nc": 1, "intf_line": lock_lines(_C20_CACHE, r"storeOrAmendSyncDuties|fetchSyncDuties")}, "prune": 1000, "timeout_ms": 300000, "case_timeout_s": 6000},
 ]
